@@ -201,6 +201,10 @@ class Real(object):
     def basic_poke(self, a, v):
         seg = (a >> 4) & 0xf800
         off = a - (seg << 4)
+        if v % 2 == 0 and off >= 2:
+            # the address written as a fraction that rounds to it (halves away from zero: 8192.5 is offset 8193)
+            frac = b'%d.5' % (off - 1) if off % 2 else b'%d.6' % (off - 1)
+            return H.run(self.s, b'DEF SEG=&H%X:POKE %s,%d' % (seg, frac, v))
         return H.run(self.s, b'DEF SEG=&H%X:POKE &H%X,%d' % (seg, off, v))
 
 
